@@ -88,6 +88,18 @@ Definition z_eqb (a b : list bytes * list bytes * N) : bool :=
    implementation's allocator recorded? *)
 Definition z_chk (z : bool) (ops : list op) (first second : list bytes) (nlive : N) : bool :=
   z_eqb (z_model z ops) (first, second, nlive).
+(* the same with the final drops given explicitly (the driver drops the survivors in ITS list order; after a
+   clone_from — translated by tools/props_misc.py to OClone j; ODrop i — the model's list order differs) *)
+Definition z_model_x (z : bool) (ops fin : list op) : list bytes * list bytes * N :=
+  let s1 := run z ops in
+  let s2 := run_from z s1 fin in
+  let j1 := observe s1 in
+  (j1, skipn (List.length j1) (observe s2), N.of_nat (List.length (conts s1))).
+Definition z_chk_x (z : bool) (ops fin : list op) (first second : list bytes) (nlive : N) : bool :=
+  z_eqb (z_model_x z ops fin) (first, second, nlive) && Nat.eqb (List.length (conts (run_from z (run z ops) fin))) 0.
+Definition z_show_x (ops fin : list op) :=
+  let '(a, b, n) := z_model_x true ops fin in (map to_hex a, map to_hex b, n).
+
 Definition z_show (ops : list op) :=
   let '(a, b, n) := z_model true ops in (map to_hex a, map to_hex b, n).
 
